@@ -93,47 +93,18 @@ Section WithCrc.
       + apply incl_refl.
   Qed.
 
-  Lemma load_leveldb_step_from : forall es m e, map_from es m -> map_from (es ++ [e]) (load_leveldb_step m e).
-  Proof.
-    intros es m e Hm k nv Hg. unfold load_leveldb_step in Hg.
-    assert (Hinc : incl es (es ++ [e])) by (apply incl_appl, incl_refl).
-    destruct (negb (e_off e =? 0) && size_valid (e_size e)) eqn:Ec.
-    - unfold nm_set in Hg. cbn [nm_get] in Hg. destruct (e_key e =? k) eqn:Ek.
-      + inversion Hg; subst nv; clear Hg. exists e. cbn [nv_off nv_size].
-        apply andb_true_iff in Ec. destruct Ec as [Eo Es].
-        split; [apply in_or_app; right; left; reflexivity|]. split; [lia|]. split; [reflexivity|].
-        split; [assumption|]. left. split; [reflexivity|]. apply size_valid_pos in Es. unfold TombstoneFileSize. lia.
-      + eapply from_entry_mono; eauto.
-    - destruct (N.eq_dec k (e_key e)) as [->|Hne].
-      + rewrite nm_get_remove_same in Hg. discriminate.
-      + rewrite nm_get_remove_other in Hg by assumption. eapply from_entry_mono; eauto.
-  Qed.
-
-  Lemma load_leveldb_from : forall es, map_from es (load_leveldb es).
-  Proof.
-    intros. unfold load_leveldb. apply (fold_from load_leveldb_step load_leveldb_step_from es [] []).
-    intros k nv H. discriminate.
-  Qed.
-
-  Lemma load_map_from : forall kind es, map_from es (load_map kind es).
-  Proof. intros [|] es; [apply load_compact_from|apply load_leveldb_from]. Qed.
-
   (* what a loaded volume is made of *)
-  Lemma load_k_loaded : forall kind f L, load_k crc kind f = Loaded L ->
+  Lemma load_loaded : forall f L, load crc f = Loaded L ->
     pref (d_bytes (l_dat L)) (f_dat f) /\ incl (l_idx L) (f_idx f) /\ map_from (l_idx L) (l_map L).
   Proof.
-    intros kind f L H. unfold load_k in H.
+    intros f L H. unfold load in H.
     destruct (len (f_dat f) <? SuperBlockSize); [discriminate|].
     destruct (check_and_fix crc (open_dat (f_dat f)) (f_idx f)) as [[err d] es] eqn:E.
     destruct (check_and_fix_shrinks _ _ _ _ _ E) as [Hp Hi].
     inversion H; subst L; clear H. cbn [l_dat l_idx l_map].
     split; [exact Hp|]. split; [exact Hi|].
-    destruct err; [apply load_sorted_from|apply load_map_from].
+    destruct err; [apply load_sorted_from|apply load_compact_from].
   Qed.
-
-  Lemma load_loaded : forall f L, load crc f = Loaded L ->
-    pref (d_bytes (l_dat L)) (f_dat f) /\ incl (l_idx L) (f_idx f) /\ map_from (l_idx L) (l_map L).
-  Proof. intros f L H. apply (load_k_loaded KMemory). exact H. Qed.
 
   (* ---------- reading a record through a prefix of the data file ---------- *)
   Lemma read_data_window : forall X P pre post o n,
@@ -159,7 +130,7 @@ Section WithCrc.
     (read_data crc (d_bytes (l_dat L)) (nv_off nv * 8) (body_size n) Ver = (empty_dneedle, SShort) ->
        l_read crc L k = RErr 4).
   Proof.
-    intros L k nv n Hg Hnz Hs Hpos. unfold l_read, l_read_gen. rewrite Hg.
+    intros L k nv n Hg Hnz Hs Hpos. unfold l_read. rewrite Hg.
     destruct (nv_off nv =? 0) eqn:E0; [lia|].
     assert (Hd : size_deleted (nv_size nv) = false) by (unfold size_deleted, TombstoneFileSize; lia).
     rewrite Hd. destruct (nv_size nv =? 0)%Z eqn:Ez; [lia|].
@@ -167,18 +138,16 @@ Section WithCrc.
   Qed.
 
   (* ---------- SAFETY: nothing foreign is ever served after a reopen ---------- *)
-  (* for every history (empty payloads included), every pair of cut points, either needle map
-     kind: what is served for key k is a blob a Write of the history stored under k *)
-  Theorem no_foreign_data_k : forall kind h dcut icut L k d, Forall (wf_any crc) h ->
-    load_k crc kind (crash (p_run h) dcut icut) = Loaded L -> l_read crc L k = ROk d ->
-    exists n, In (Write n) h /\ id n = k /\ data n <> [] /\ d = dview Ver n.
+  Theorem no_foreign_data : forall h dcut icut L k d, Forall (wf_op crc) h ->
+    load crc (crash (p_run h) dcut icut) = Loaded L -> l_read crc L k = ROk d ->
+    exists n, In (Write n) h /\ id n = k /\ d = dview Ver n.
   Proof.
-    intros kind h dcut icut L k d Hwf Hload Hread.
+    intros h dcut icut L k d Hwf Hload Hread.
     pose proof (inv_run crc h Hwf) as HI. set (st := p_run h) in *.
-    destruct (load_k_loaded _ _ _ Hload) as [Hp [Hi Hm]]. unfold crash, crash_e, cut_files in Hp, Hi. cbn [f_dat f_idx] in Hp, Hi.
+    destruct (load_loaded _ _ Hload) as [Hp [Hi Hm]]. cbn [crash f_dat f_idx] in Hp, Hi.
     assert (Hp' : pref (d_bytes (l_dat L)) (p_dat st)) by (eapply pref_trans; [exact Hp|apply pref_takeN]).
     assert (Hi' : incl (l_idx L) (p_idx st)) by (intros x Hx; eapply In_takeN; apply Hi; exact Hx).
-    pose proof Hread as Hread0. unfold l_read, l_read_gen in Hread.
+    pose proof Hread as Hread0. unfold l_read in Hread.
     destruct (nm_get (l_map L) k) as [nv|] eqn:Eg; [|discriminate].
     destruct (nv_off nv =? 0) eqn:E0; [discriminate|].
     destruct (size_deleted (nv_size nv)) eqn:Ed; [discriminate|].
@@ -186,22 +155,13 @@ Section WithCrc.
     apply size_deleted_neg in Ed.
     destruct (binding_record crc st (l_idx L) k nv HI Hi' (Hm k nv Eg)) as [o [r [Hin [Ho [Hid [Ht [Hs Hpos]]]]]]]; [lia|].
     destruct (rec_in_dat crc st o r HI Hin) as [pre [post [HX [Hlen [_ [_ [Hrok Hpay]]]]]]].
-    rewrite Ht in Hpay. pose proof (body_pos_data _ Hpos) as Hne.
+    rewrite Ht in Hpay. destruct Hpay as [Hne Hck].
     destruct (l_read_live L k nv (a_n r) Eg ltac:(lia) Hs Hpos) as [Hok Hshort].
     rewrite Ho in Hok, Hshort.
-    destruct (read_data_window (p_dat st) (d_bytes (l_dat L)) pre post o (a_n r) HX Hlen Hp' Hrok Hne Hpay) as [H1|H1].
-    - exists (a_n r). split; [eapply (recs_from_writes h); eauto|]. split; [assumption|]. split; [assumption|].
+    destruct (read_data_window (p_dat st) (d_bytes (l_dat L)) pre post o (a_n r) HX Hlen Hp' Hrok Hne Hck) as [H1|H1].
+    - exists (a_n r). split; [eapply (recs_from_writes h); eauto|]. split; [assumption|].
       rewrite (Hok H1) in Hread0. inversion Hread0. reflexivity.
     - rewrite (Hshort H1) in Hread0. discriminate.
-  Qed.
-
-  Theorem no_foreign_data : forall h dcut icut L k d, Forall (wf_any crc) h ->
-    load crc (crash (p_run h) dcut icut) = Loaded L -> l_read crc L k = ROk d ->
-    exists n, In (Write n) h /\ id n = k /\ d = dview Ver n.
-  Proof.
-    intros h dcut icut L k d Hwf Hload Hread.
-    destruct (no_foreign_data_k KMemory h dcut icut L k d Hwf Hload Hread) as [n [H1 [H2 [_ H3]]]].
-    exists n. auto.
   Qed.
 
   (* ---------- LIVENESS at an admissible, trigger-free crash point ---------- *)
@@ -217,8 +177,7 @@ Section WithCrc.
 
   (* the check of the last index entry of the running volume [st] against [p_dat st ++ T] *)
   Lemma check_last_entry : forall st l' o r T, Inv crc st -> p_recs st = l' ++ [(o, r)] ->
-    exists D, check_entry crc (open_dat (p_dat st ++ T)) (entry_of o r) = (CNil, D) /\ good_dat st D /\
-              d_bytes D = p_dat st /\ d_fsize D = len (p_dat st).
+    exists D, check_entry crc (open_dat (p_dat st ++ T)) (entry_of o r) = (CNil, D) /\ good_dat st D.
   Proof.
     intros st l' o r T HI Hrecs.
     assert (Hin : In (o, r) (p_recs st)) by (rewrite Hrecs; apply in_or_app; right; left; reflexivity).
@@ -266,16 +225,11 @@ Section WithCrc.
       destruct (round_up8_spec (len (p_dat st ++ T))) as [Hr1 [Hr2 Hr3]].
       pose proof (len_app _ (p_dat st) T) as Hla.
       destruct (round_up8 (len (p_dat st ++ T)) =? o + actual_size bs Ver) eqn:E3.
-      + exists (open_dat (p_dat st ++ T)). split; [reflexivity|]. split; [apply good_open|].
-        (* nothing behind the record: T is empty *)
-        assert (HT : T = []) by (apply len_zero_nil; lia).
-        subst T. unfold open_dat. cbn [d_bytes d_fsize]. rewrite app_nil_r in *. split; [reflexivity|lia].
+      + exists (open_dat (p_dat st ++ T)). split; [reflexivity|apply good_open].
       + destruct (o + actual_size bs Ver <? round_up8 (len (p_dat st ++ T))) eqn:E4; [|lia].
         eexists. split; [reflexivity|]. unfold good_dat, d_truncate. cbn [d_bytes d_fsize].
         replace (o + actual_size bs Ver) with (len (p_dat st)) by lia.
-        rewrite takeN_app by reflexivity.
-        split; [split; [exists []; rewrite app_nil_r; reflexivity|]; split; [assumption|lia]|].
-        split; reflexivity.
+        rewrite takeN_app by reflexivity. split; [exists []; rewrite app_nil_r; reflexivity|]. split; [assumption|lia].
   Qed.
 
   Lemma idx_of_app : forall a b, idx_of (a ++ b) = idx_of a ++ idx_of b.
@@ -290,31 +244,72 @@ Section WithCrc.
     - rewrite <- E. rewrite rev_app_distr. cbn [rev app check_loop]. rewrite H, N.ltb_irrefl. reflexivity.
   Qed.
 
-  (* reopening [p_dat st ++ T] with the index of [st]: the volume comes up writable with the whole
-     index, the map replayed from it, and a data file that still starts with everything the
-     index knows about -- and is EXACTLY the data file of [st] unless the index is empty and
-     something lies behind the super block *)
-  Lemma load_core : forall kind st T torn, Inv crc st ->
-    exists D, load_k crc kind {| f_dat := p_dat st ++ T; f_idx := p_idx st; f_torn := torn |}
-              = Loaded {| l_dat := D; l_idx := p_idx st; l_map := load_map kind (p_idx st); l_nwod := false |}
-              /\ good_dat st D /\
-              (p_recs st <> [] \/ T = [] -> d_bytes D = p_dat st /\ d_fsize D = len (p_dat st)).
+  (* reopening [p_dat st ++ T] with the index of [st] gives back the needle map of [st] *)
+  Lemma load_core : forall st T torn, Inv crc st ->
+    exists D, load crc {| f_dat := p_dat st ++ T; f_idx := p_idx st; f_torn := torn |}
+              = Loaded {| l_dat := D; l_idx := p_idx st; l_map := p_map st; l_nwod := false |}
+              /\ good_dat st D.
   Proof.
-    intros kind st T torn HI. unfold load_k. cbn [f_dat f_idx f_torn].
-    destruct (len_dat_ge8 crc st HI) as [H8 Hal].
+    intros st T torn HI. unfold load. cbn [f_dat f_idx f_torn].
+    destruct (len_dat_ge8 crc st HI) as [H8 _].
     destruct (len (p_dat st ++ T) <? SuperBlockSize) eqn:E1; [rewrite len_app in E1; unfold SuperBlockSize in E1; lia|].
     destruct (snoc_case _ (p_recs st)) as [Hnil|[l' [[o r] Hsnoc]]].
     - (* empty index: nothing is checked *)
       assert (Hidx : p_idx st = []) by (rewrite (inv_idx crc st HI), Hnil; reflexivity).
-      rewrite Hidx. cbn [check_and_fix]. eexists. split; [reflexivity|]. split; [apply good_open|].
-      intros [Hne|HT]; [congruence|]. subst T. unfold open_dat. cbn [d_bytes d_fsize]. rewrite app_nil_r.
-      split; [reflexivity|]. destruct (round_up8_spec (len (p_dat st))) as [_ [_ Hr]]. apply Hr. assumption.
-    - destruct (check_last_entry st l' o r T HI Hsnoc) as [D [Hc [HD [Hb Hf]]]].
+      rewrite Hidx. cbn [check_and_fix]. eexists. split; [|apply good_open].
+      rewrite (inv_map crc st HI), Hidx. reflexivity.
+    - destruct (check_last_entry st l' o r T HI Hsnoc) as [D [Hc HD]].
       assert (Hidx : p_idx st = idx_of l' ++ [entry_of o r]).
       { rewrite (inv_idx crc st HI), Hsnoc, idx_of_app. reflexivity. }
-      exists D. split; [|split; [assumption|intros _; split; assumption]].
+      exists D. split; [|assumption].
       assert (Hcf : check_and_fix crc (open_dat (p_dat st ++ T)) (p_idx st) = (false, D, p_idx st)).
       { rewrite Hidx. apply check_and_fix_last. assumption. }
-      rewrite Hcf. reflexivity.
+      rewrite Hcf. rewrite (inv_map crc st HI). reflexivity.
+  Qed.
+
+  (* ... and every key reads as it did in the running volume [st] *)
+  Lemma read_core : forall st D es nwod k, Inv crc st -> good_dat st D ->
+    l_read crc {| l_dat := D; l_idx := es; l_map := p_map st; l_nwod := nwod |} k = p_read st k.
+  Proof.
+    intros st D es nwod k HI [[T HT] _]. unfold p_read.
+    destruct (nm_get (p_map st) k) as [nv|] eqn:Eg; [|unfold l_read; cbn [l_map]; rewrite Eg; reflexivity].
+    destruct (nv_off nv =? 0) eqn:E0; [unfold l_read; cbn [l_map]; rewrite Eg, E0; reflexivity|].
+    destruct (size_deleted (nv_size nv)) eqn:Ed; [unfold l_read; cbn [l_map]; rewrite Eg, E0, Ed; reflexivity|].
+    destruct (nv_size nv =? 0)%Z eqn:Ez; [unfold l_read; cbn [l_map]; rewrite Eg, E0, Ed, Ez; reflexivity|].
+    apply size_deleted_neg in Ed.
+    destruct (binding_record crc st (p_idx st) k nv HI (incl_refl _) (map_from_idx crc st HI k nv Eg))
+      as [o [r [Hin [Ho [Hid [Ht [Hs Hpos]]]]]]]; [lia|].
+    rewrite Ho, (lay_find _ _ _ _ (inv_lay crc st HI) Hin).
+    destruct (rec_in_dat crc st o r HI Hin) as [pre [post [HX [Hlen [_ [_ [Hrok Hpay]]]]]]].
+    rewrite Ht in Hpay. destruct Hpay as [Hne Hck]. destruct Hrok as [Henc Hrng].
+    set (L := {| l_dat := D; l_idx := es; l_map := p_map st; l_nwod := nwod |}).
+    destruct (l_read_live L k nv (a_n r) Eg ltac:(lia) Hs Hpos) as [Hok _]. apply Hok.
+    unfold L. cbn [l_dat]. rewrite Ho, HT, HX, <- !app_assoc, <- Hlen.
+    apply roundtrip_in_file; auto using empty_payload_of.
+  Qed.
+
+  (* ... and a fresh key can be written and read back *)
+  Lemma write_core : forall st D es n, Inv crc st -> good_dat st D ->
+    nm_get (p_map st) (id n) = None -> rec_ok n -> data n <> [] -> checksum n = crc (data n) ->
+    exists L2, l_write crc {| l_dat := D; l_idx := es; l_map := p_map st; l_nwod := false |} n = (L2, WOk) /\
+               l_read crc L2 (id n) = ROk (dview Ver n).
+  Proof.
+    intros st D es n HI [[T HT] [Hal Hle]] Hg [Henc Hrng] Hne Hck.
+    unfold l_write, l_unchanged. cbn [l_nwod l_map l_dat l_idx]. rewrite Hg.
+    eexists. split; [reflexivity|].
+    destruct (len_dat_ge8 crc st HI) as [H8 _].
+    assert (Hf8 : 8 <= d_fsize D) by (rewrite HT, len_app in Hle; lia).
+    set (L2 := {| l_dat := d_append D (encode Ver n); l_idx := _; l_map := _; l_nwod := false |}).
+    set (nv := {| nv_off := d_fsize D / 8; nv_size := Z.of_N (body_size n) |}).
+    assert (Eg : nm_get (l_map L2) (id n) = Some nv).
+    { unfold L2. cbn [l_map nm_set nm_get]. rewrite N.eqb_refl. reflexivity. }
+    pose proof (body_size_pos n Hne) as Hpos.
+    destruct (l_read_live L2 (id n) nv n Eg) as [Hok _]; [unfold nv; cbn [nv_off]; lia|reflexivity|assumption|].
+    apply Hok. unfold nv, L2, d_append. cbn [nv_off l_dat d_bytes].
+    replace (d_fsize D / 8 * 8) with (d_fsize D) by lia.
+    set (Z0 := zeros (d_fsize D - len (d_bytes D))).
+    assert (HZ : len (d_bytes D ++ Z0) = d_fsize D) by (unfold Z0; rewrite len_app, len_zeros; lia).
+    pose proof (roundtrip_in_file crc Ver n (d_bytes D ++ Z0) [] (empty_payload_of n Hne) Henc Hrng Hck) as R.
+    rewrite HZ, app_nil_r, <- app_assoc in R. exact R.
   Qed.
 End WithCrc.
